@@ -162,10 +162,7 @@ def run(ctx):
     singles = [([], [], q) for q in range(4)] + list(L1) + [(a[0], a[1], q) for a in L2 for q in range(4)]
     for _ in range(2000 if ctx.thorough else 120):
         singles.append(rand_p(rng, rng.randint(1, 6 if ctx.thorough else 5)))
-    for a in singles:
-        ctx.count("single_n=%d" % len(a[0]))
-        desc = {"kind": "single", "a": a}
-        nt = any(a[0]) or any(a[1])
+    def single_case(a, desc, nt):
         ps = mk(*a)
         M = dense(ps.as_matrix())
         add("CMat %s %s" % (p3(*a), ct.zimat(M)), dict(desc, op="as_matrix"), nt)
@@ -200,6 +197,15 @@ def run(ctx):
                 ctx.fail(meth + ":factor-times-new-differs", desc, "f * new = old", repr(f))
             if meth == "refactor_sign" and t.q not in (0, 1):
                 ctx.fail("refactor_sign:q-not-0-1", desc)
+
+    for a in singles:
+        ctx.count("single_n=%d" % len(a[0]))
+        desc = {"kind": "single", "a": a}
+        nt = any(a[0]) or any(a[1])
+        try:
+            single_case(a, desc, nt)
+        except Exception as e:     # the implementation raising on a valid string is a failing input, not a harness error
+            ctx.fail("single:exception:" + type(e).__name__, desc, "matrix / flags / print / refactor defined", repr(e)[:200])
 
     # ---------------------------------------------------------------- parsing (valid + malformed stream)
     strs = []
@@ -403,102 +409,105 @@ def replay(ctx, data):
     from qib.operator.pauli_operator import PauliString, WeightedPauliString, PauliOperator
     inp, sig = data["input"], data["sig"]
     bad = False
-    if inp.get("kind") == "pair":
-        a, b = inp["a"], inp["b"]
-        pa, pb = PauliString(*a), PauliString(*b)
-        pr = pa @ pb
-        ph, letters = letter_product(a, b)
-        bad |= "".join(pr.get_pauli(i) for i in range(len(a[0]))) != letters or abs(PH[pr.q % 4] - ph) > 0
-        bad |= bool(pa.commutes_with(pb)) != letter_commute(a, b)
-        if len(a[0]) <= 8:
-            A, B = ref_matrix(*a), ref_matrix(*b)
-            bad |= not np.array_equal(dense(pr.as_matrix()), A @ B)
-            bad |= bool(pa.commutes_with(pb)) != np.array_equal(A @ B, B @ A)
-    elif inp.get("kind") == "single":
-        a = inp["a"]
-        ps = PauliString(*a)
-        R = ref_matrix(*a)
-        bad |= not np.array_equal(dense(ps.as_matrix()), R)
-        bad |= bool(ps.is_hermitian()) != np.array_equal(R, R.conj().T)
-        try:
-            bad |= not (PauliString.from_string(str(ps)) == ps)
-        except Exception:
-            bad = True
-        for meth in ("refactor_phase", "refactor_sign"):
-            t = PauliString(*a)
-            f = getattr(t, meth)()
-            bad |= not np.array_equal(f * dense(t.as_matrix()), R)
-            h = PauliString(*a)
-            h.as_matrix(); str(h)
-            fh = getattr(h, meth)()
-            bad |= not np.array_equal(fh * dense(h.as_matrix()), R)
-    elif inp.get("kind") == "history":
-        op = PauliOperator()
-        added = 0
-        n = inp["n"]
-        zero_only = True
-
-        def opmat():
-            return dense(op.as_matrix()) if op.pstrings else np.zeros((2 ** n, 2 ** n), dtype=complex)
-        for e in inp["ops"]:
-            before = opmat()
-            if e[0] == "add":
-                w = complex(e[2].strip("()")) if isinstance(e[2], str) else e[2]
-                op.add_pauli_string(WeightedPauliString(PauliString(*e[1]), w))
-                added = added + w * ref_matrix(*e[1])
-                bad |= not np.array_equal(opmat(), before + w * ref_matrix(*e[1]))
-            else:
-                zero_only &= e[1] == 0
-                op.remove_zero_weight_strings(e[1])
-                if e[1] == 0:
-                    bad |= not np.array_equal(opmat(), before)
-        if zero_only and op.pstrings:
-            bad |= not np.array_equal(dense(op.as_matrix()), added)
-    elif inp.get("kind") == "magnitudes":
-        n = inp["n"]
-        items = [(a, complex(w)) for a, w in inp["items"]]
-        lst = [WeightedPauliString(PauliString(*a), w) for a, w in items]
-        op = PauliOperator(lst)
-        exp = sum((w * ref_matrix(*a) for a, w in items), np.zeros((2 ** n, 2 ** n), dtype=complex))
-        bad |= not np.allclose(dense(op.as_matrix()), exp, rtol=1e-12, atol=0)
-        op2 = PauliOperator(lst)
-        used = {(tuple(a[0]), tuple(a[1])) for a, _ in items}
-        free = [(z, x) for z in itertools.product([0, 1], repeat=n) for x in itertools.product([0, 1], repeat=n)
-                if (z, x) not in used]
-        if free:
-            op2.add_pauli_string(WeightedPauliString(PauliString(list(free[0][0]), list(free[0][1]), 0), 7))
-        lst.append(WeightedPauliString(PauliString([1] * n, [0] * n, 0), 5))
-        bad |= not np.allclose(dense(op.as_matrix()), exp, rtol=1e-12, atol=0) or len(op.pstrings) != len(items)
-    elif inp.get("kind") == "set_pauli":
-        LCODE = {"I": (0, 0), "X": (0, 1), "Y": (1, 1), "Z": (1, 0)}
-        a = inp["a"]
-        ps = PauliString(*a)
-        zz, xx = list(a[0]), list(a[1])
-        for i, l in inp["edits"]:
-            ps.set_pauli(l, i)
-            zz[i], xx[i] = LCODE[l]
-        R = ref_matrix(zz, xx, a[2])
-        bad |= not np.array_equal(dense(ps.as_matrix()), R)
-        if "other" in inp:
-            o = inp["other"]
-            bad |= not np.array_equal(dense((ps @ PauliString(*o)).as_matrix()), R @ ref_matrix(*o))
-    elif inp.get("kind") == "ctor":
-        z, x, q = inp["z"], inp["x"], inp["q"]
-        valid = len(z) == len(x) and set(z) <= {0, 1} and set(x) <= {0, 1}
-        try:
-            r = PauliString(z, x, q)
-            acc = True
-        except Exception:
-            acc = False
-        bad |= valid != acc
-        if acc and valid:
+    try:
+        if inp.get("kind") == "pair":
+            a, b = inp["a"], inp["b"]
+            pa, pb = PauliString(*a), PauliString(*b)
+            pr = pa @ pb
+            ph, letters = letter_product(a, b)
+            bad |= "".join(pr.get_pauli(i) for i in range(len(a[0]))) != letters or abs(PH[pr.q % 4] - ph) > 0
+            bad |= bool(pa.commutes_with(pb)) != letter_commute(a, b)
+            if len(a[0]) <= 8:
+                A, B = ref_matrix(*a), ref_matrix(*b)
+                bad |= not np.array_equal(dense(pr.as_matrix()), A @ B)
+                bad |= bool(pa.commutes_with(pb)) != np.array_equal(A @ B, B @ A)
+        elif inp.get("kind") == "single":
+            a = inp["a"]
+            ps = PauliString(*a)
+            R = ref_matrix(*a)
+            bad |= not np.array_equal(dense(ps.as_matrix()), R)
+            bad |= bool(ps.is_hermitian()) != np.array_equal(R, R.conj().T)
             try:
-                red = PauliString(z, x, q % 4)
-                bad |= not (r == red) or not (PauliString.from_string(str(r)) == red)
-                t = PauliString(z, x, q)
-                t.refactor_sign()
-                bad |= t.q not in (0, 1)
+                bad |= not (PauliString.from_string(str(ps)) == ps)
             except Exception:
                 bad = True
+            for meth in ("refactor_phase", "refactor_sign"):
+                t = PauliString(*a)
+                f = getattr(t, meth)()
+                bad |= not np.array_equal(f * dense(t.as_matrix()), R)
+                h = PauliString(*a)
+                h.as_matrix(); str(h)
+                fh = getattr(h, meth)()
+                bad |= not np.array_equal(fh * dense(h.as_matrix()), R)
+        elif inp.get("kind") == "history":
+            op = PauliOperator()
+            added = 0
+            n = inp["n"]
+            zero_only = True
+
+            def opmat():
+                return dense(op.as_matrix()) if op.pstrings else np.zeros((2 ** n, 2 ** n), dtype=complex)
+            for e in inp["ops"]:
+                before = opmat()
+                if e[0] == "add":
+                    w = complex(e[2].strip("()")) if isinstance(e[2], str) else e[2]
+                    op.add_pauli_string(WeightedPauliString(PauliString(*e[1]), w))
+                    added = added + w * ref_matrix(*e[1])
+                    bad |= not np.array_equal(opmat(), before + w * ref_matrix(*e[1]))
+                else:
+                    zero_only &= e[1] == 0
+                    op.remove_zero_weight_strings(e[1])
+                    if e[1] == 0:
+                        bad |= not np.array_equal(opmat(), before)
+            if zero_only and op.pstrings:
+                bad |= not np.array_equal(dense(op.as_matrix()), added)
+        elif inp.get("kind") == "magnitudes":
+            n = inp["n"]
+            items = [(a, complex(w)) for a, w in inp["items"]]
+            lst = [WeightedPauliString(PauliString(*a), w) for a, w in items]
+            op = PauliOperator(lst)
+            exp = sum((w * ref_matrix(*a) for a, w in items), np.zeros((2 ** n, 2 ** n), dtype=complex))
+            bad |= not np.allclose(dense(op.as_matrix()), exp, rtol=1e-12, atol=0)
+            op2 = PauliOperator(lst)
+            used = {(tuple(a[0]), tuple(a[1])) for a, _ in items}
+            free = [(z, x) for z in itertools.product([0, 1], repeat=n) for x in itertools.product([0, 1], repeat=n)
+                    if (z, x) not in used]
+            if free:
+                op2.add_pauli_string(WeightedPauliString(PauliString(list(free[0][0]), list(free[0][1]), 0), 7))
+            lst.append(WeightedPauliString(PauliString([1] * n, [0] * n, 0), 5))
+            bad |= not np.allclose(dense(op.as_matrix()), exp, rtol=1e-12, atol=0) or len(op.pstrings) != len(items)
+        elif inp.get("kind") == "set_pauli":
+            LCODE = {"I": (0, 0), "X": (0, 1), "Y": (1, 1), "Z": (1, 0)}
+            a = inp["a"]
+            ps = PauliString(*a)
+            zz, xx = list(a[0]), list(a[1])
+            for i, l in inp["edits"]:
+                ps.set_pauli(l, i)
+                zz[i], xx[i] = LCODE[l]
+            R = ref_matrix(zz, xx, a[2])
+            bad |= not np.array_equal(dense(ps.as_matrix()), R)
+            if "other" in inp:
+                o = inp["other"]
+                bad |= not np.array_equal(dense((ps @ PauliString(*o)).as_matrix()), R @ ref_matrix(*o))
+        elif inp.get("kind") == "ctor":
+            z, x, q = inp["z"], inp["x"], inp["q"]
+            valid = len(z) == len(x) and set(z) <= {0, 1} and set(x) <= {0, 1}
+            try:
+                r = PauliString(z, x, q)
+                acc = True
+            except Exception:
+                acc = False
+            bad |= valid != acc
+            if acc and valid:
+                try:
+                    red = PauliString(z, x, q % 4)
+                    bad |= not (r == red) or not (PauliString.from_string(str(r)) == red)
+                    t = PauliString(z, x, q)
+                    t.refactor_sign()
+                    bad |= t.q not in (0, 1)
+                except Exception:
+                    bad = True
+    except Exception:      # the implementation raising on a recorded (valid) input is the failure
+        bad = True
     if bad:
         ctx.fail(sig, inp, data.get("expected"), "still fails")
